@@ -1,1 +1,525 @@
-From RC Require Import Model.Units Model.UnitsRun.
+(* Lemmas for property C09, all about the exact-rational instance [QN] of Model/Units.v and about the
+   REGENERATED table Gen/UnitTables.v.
+
+   Structure
+     1. arithmetic helpers ([within], scaling a relative bound by any x);
+     2. a generic section over one unit family: every arm is multiplication by one constant (whatever the
+        table says), hence additive and homogeneous; identity / round trip / physical factor are FINITE facts
+        about the table ([forallb ... = true], decided by vm_compute) lifted to every magnitude and sign;
+     3. the finite facts for the six generated tables (these are the obligations a changed factor breaks);
+     4. the six families instantiated;
+     5. the constructors create_time / create_speed / create_energy. *)
+From Coq Require Import ZArith QArith Qabs String List Bool Lia Lqa.
+From RC Require Import Base.Num Base.Res Gen.UnitTables Model.Units Model.UnitsRun.
+Import ListNotations.
+Import UnitTables Units UnitsRun.
+Local Open Scope Q_scope.
+
+(* ------------------------------------------------------------------ 1. helpers *)
+Lemma within_spec : forall t a b, within t a b = true -> Qabs (a - b) <= t * Qabs b.
+Proof. intros t a b H. unfold within in H. apply Qle_bool_iff in H. exact H. Qed.
+
+Lemma Qltb_spec : forall a b, Qltb a b = true -> a < b.
+Proof.
+  intros a b H. unfold Qltb in H. apply negb_true_iff in H.
+  destruct (Qlt_le_dec a b) as [Hlt | Hle]; [exact Hlt|].
+  apply Qle_bool_iff in Hle. rewrite Hle in H. discriminate H.
+Qed.
+
+Lemma Qle_bool_false : forall a b, b < a -> Qle_bool a b = false.
+Proof.
+  intros a b H. destruct (Qle_bool a b) eqn:E; [|reflexivity].
+  apply Qle_bool_iff in E. exfalso. exact (Qlt_not_le _ _ H E).
+Qed.
+
+(* a relative bound on a factor is a relative bound on every scaled value *)
+Lemma scale_within : forall t a b x,
+  Qabs (a - b) <= t * Qabs b -> Qabs (x * a - x * b) <= t * Qabs (x * b).
+Proof.
+  intros t a b x H.
+  assert (E : x * a - x * b == x * (a - b)) by ring.
+  rewrite E. rewrite !Qabs_Qmult.
+  assert (E2 : t * (Qabs x * Qabs b) == (t * Qabs b) * Qabs x) by ring.
+  rewrite E2. rewrite (Qmult_comm (Qabs x)).
+  apply Qmult_le_compat_r; [exact H | apply Qabs_nonneg].
+Qed.
+
+Lemma div_mul_div : forall a b c d : Q, (a * b) / (c * d) == (a / c) * (b / d).
+Proof. intros a b c d. unfold Qdiv. rewrite Qinv_mult_distr. ring. Qed.
+
+Lemma mul_pos : forall a b : Q, 0 < a -> 0 < b -> 0 < a * b.
+Proof. intros a b Ha Hb. nra. Qed.
+
+Lemma mul_nonpos : forall a b : Q, a <= 0 -> 0 < b -> a * b <= 0.
+Proof. intros a b Ha Hb. nra. Qed.
+
+(* every arm of every table is multiplication by its constant *)
+Lemma apply_conv_factor : forall c (x : Q), apply_conv QN c x == x * conv_factor c.
+Proof.
+  intros c x. destruct c as [| m e | m e]; cbn [apply_conv conv_factor mul div lit QN].
+  - ring.
+  - reflexivity.
+  - reflexivity.
+Qed.
+
+(* ------------------------------------------------------------------ 2. one family, generically *)
+Section Family.
+  Context {U : Type}.
+  Variable name : U -> string.
+  Variable t : table.
+  Variable all : list U.
+  Hypothesis all_complete : forall u, In u all.
+
+  Let cv (u v : U) (x : Q) : Q := apply_conv QN (conv_of t (name u) (name v)) x.
+  Let k (u v : U) : Q := conv_factor (conv_of t (name u) (name v)).
+
+  Lemma fam_factor : forall u v x, cv u v x == x * k u v.
+  Proof. intros u v x. apply apply_conv_factor. Qed.
+
+  Lemma fam_additive : forall u v x y, cv u v (x + y) == cv u v x + cv u v y.
+  Proof. intros u v x y. rewrite !fam_factor. ring. Qed.
+
+  Lemma fam_homogeneous : forall u v a x, cv u v (a * x) == a * cv u v x.
+  Proof. intros u v a x. rewrite !fam_factor. ring. Qed.
+
+  Lemma fam_identity : forallb (id_ok k) all = true -> forall u x, cv u u x == x.
+  Proof.
+    intros Htab u x. rewrite fam_factor.
+    rewrite forallb_forall in Htab. specialize (Htab u (all_complete u)).
+    unfold id_ok in Htab. apply Qeq_bool_iff in Htab. rewrite Htab. ring.
+  Qed.
+
+  Lemma fam_roundtrip : forallb (rt_ok k) (list_prod all all) = true ->
+    forall u v x, Qabs (cv v u (cv u v x) - x) <= tol * Qabs x.
+  Proof.
+    intros Htab u v x.
+    rewrite forallb_forall in Htab.
+    specialize (Htab (u, v) (proj2 (in_prod_iff all all u v) (conj (all_complete u) (all_complete v)))).
+    unfold rt_ok in Htab. cbn [fst snd] in Htab. apply within_spec in Htab.
+    apply (scale_within tol _ _ x) in Htab.
+    assert (E1 : cv v u (cv u v x) == x * (k u v * k v u)).
+    { rewrite fam_factor. rewrite fam_factor. ring. }
+    assert (E2 : x * 1 == x) by ring.
+    rewrite E1. rewrite E2 in Htab. exact Htab.
+  Qed.
+
+  Lemma fam_physical : forall si : U -> Q, forallb (phys_ok k si) (list_prod all all) = true ->
+    forall u v x, Qabs (cv u v x - x * (si u / si v)) <= tol * Qabs (x * (si u / si v)).
+  Proof.
+    intros si Htab u v x.
+    rewrite forallb_forall in Htab.
+    specialize (Htab (u, v) (proj2 (in_prod_iff all all u v) (conj (all_complete u) (all_complete v)))).
+    unfold phys_ok in Htab. cbn [fst snd] in Htab. apply within_spec in Htab.
+    apply (scale_within tol _ _ x) in Htab.
+    rewrite fam_factor. exact Htab.
+  Qed.
+
+  Lemma fam_positive : forall b, forallb (pos_ok k b) all = true -> forall u, 0 < k u b /\ 0 < k b u.
+  Proof.
+    intros b Htab u. rewrite forallb_forall in Htab. specialize (Htab u (all_complete u)).
+    unfold pos_ok in Htab. apply andb_true_iff in Htab. destruct Htab as [H1 H2].
+    split; apply Qltb_spec; assumption.
+  Qed.
+End Family.
+
+(* ------------------------------------------------------------------ 3. finite facts about the generated tables *)
+Lemma all_dist_complete : forall u : dist_unit, In u all_dist.
+Proof. intros u. destruct u; cbn; tauto. Qed.
+Lemma all_time_complete : forall u : time_unit, In u all_time.
+Proof. intros u. destruct u; cbn; tauto. Qed.
+Lemma all_speed_complete : forall u : speed_unit, In u all_speed.
+Proof. intros u. destruct u; cbn; tauto. Qed.
+Lemma all_energy_complete : forall u : energy_unit, In u all_energy.
+Proof. intros u. destruct u; cbn; tauto. Qed.
+Lemma all_energy_rate_complete : forall u : energy_rate_unit, In u all_energy_rate.
+Proof. intros u. destruct u; cbn; tauto. Qed.
+Lemma all_grade_complete : forall u : grade_unit, In u all_grade.
+Proof. intros u. destruct u; cbn; tauto. Qed.
+Lemma all_weight_complete : forall u : weight_unit, In u all_weight.
+Proof. intros u. destruct u; cbn; tauto. Qed.
+
+(* the hand-written enumerations list exactly the variants the translator found in the Rust enums, in
+   declaration order; every generated name resolves (the fallbacks of Model/Units.v are never taken);
+   every ordered pair has an arm (no [missing_arm]) and no table has more arms than pairs *)
+Lemma gen_variants_agree :
+  distance_variants = map dist_name all_dist /\ time_variants = map time_name all_time
+  /\ speed_variants = map speed_name all_speed /\ energy_variants = map energy_name all_energy
+  /\ energy_rate_variants = map energy_rate_name all_energy_rate
+  /\ grade_variants = map grade_name all_grade /\ weight_variants = map weight_name all_weight.
+Proof. repeat split; vm_compute; reflexivity. Qed.
+
+Definition resolves {A B} (of_name : string -> option B) (l : list (A * string)) : bool :=
+  forallb (fun p => match of_name (snd p) with Some _ => true | None => false end) l.
+Lemma gen_names_resolve :
+  dist_of_name UnitTables.base_distance_unit <> None /\ time_of_name UnitTables.base_time_unit <> None
+  /\ speed_of_name UnitTables.base_speed_unit <> None
+  /\ resolves time_of_name UnitTables.speed_time_unit = true
+  /\ resolves dist_of_name UnitTables.speed_distance_unit = true
+  /\ resolves dist_of_name UnitTables.energy_rate_distance_unit = true
+  /\ resolves energy_of_name UnitTables.energy_rate_energy_unit = true
+  /\ map fst UnitTables.speed_time_unit = map speed_name all_speed
+  /\ map fst UnitTables.speed_distance_unit = map speed_name all_speed
+  /\ map fst UnitTables.energy_rate_distance_unit = map energy_rate_name all_energy_rate
+  /\ map fst UnitTables.energy_rate_energy_unit = map energy_rate_name all_energy_rate.
+Proof. repeat split; vm_compute; solve [reflexivity | discriminate]. Qed.
+
+Definition arms_total {U} (name : U -> string) (all : list U) (t : table) : bool :=
+  forallb (fun p => match lookup t (name (fst p)) (name (snd p)) with Some _ => true | None => false end)
+          (list_prod all all)
+  && Nat.eqb (List.length t) (List.length (list_prod all all)).
+Lemma gen_tables_total :
+  arms_total dist_name all_dist distance_table = true /\ arms_total time_name all_time time_table = true
+  /\ arms_total speed_name all_speed speed_table = true /\ arms_total energy_name all_energy energy_table = true
+  /\ arms_total grade_name all_grade grade_table = true /\ arms_total weight_name all_weight weight_table = true.
+Proof. repeat split; vm_compute; reflexivity. Qed.
+
+(* identity: the arm (u, u) has factor exactly 1 *)
+Lemma distance_identity_table : forallb (id_ok k_dist) all_dist = true.
+Proof. vm_compute. reflexivity. Qed.
+Lemma time_identity_table : forallb (id_ok k_time) all_time = true.
+Proof. vm_compute. reflexivity. Qed.
+Lemma speed_identity_table : forallb (id_ok k_speed) all_speed = true.
+Proof. vm_compute. reflexivity. Qed.
+Lemma energy_identity_table : forallb (id_ok k_energy) all_energy = true.
+Proof. vm_compute. reflexivity. Qed.
+Lemma grade_identity_table : forallb (id_ok k_grade) all_grade = true.
+Proof. vm_compute. reflexivity. Qed.
+Lemma weight_identity_table : forallb (id_ok k_weight) all_weight = true.
+Proof. vm_compute. reflexivity. Qed.
+
+(* round trip: |k(u,v) * k(v,u) - 1| <= 1/1000 for ALL ordered pairs: 25 + 16 + 9 + 9 + 9 + 9 *)
+Lemma distance_roundtrip_table : forallb (rt_ok k_dist) (list_prod all_dist all_dist) = true.
+Proof. vm_compute. reflexivity. Qed.
+Lemma time_roundtrip_table : forallb (rt_ok k_time) (list_prod all_time all_time) = true.
+Proof. vm_compute. reflexivity. Qed.
+Lemma speed_roundtrip_table : forallb (rt_ok k_speed) (list_prod all_speed all_speed) = true.
+Proof. vm_compute. reflexivity. Qed.
+Lemma energy_roundtrip_table : forallb (rt_ok k_energy) (list_prod all_energy all_energy) = true.
+Proof. vm_compute. reflexivity. Qed.
+Lemma grade_roundtrip_table : forallb (rt_ok k_grade) (list_prod all_grade all_grade) = true.
+Proof. vm_compute. reflexivity. Qed.
+Lemma weight_roundtrip_table : forallb (rt_ok k_weight) (list_prod all_weight all_weight) = true.
+Proof. vm_compute. reflexivity. Qed.
+
+(* physical: |k(u,v) - si u / si v| <= 1/1000 * (si u / si v) against the exact SI specification *)
+Lemma distance_physical_table : forallb (phys_ok k_dist si_distance) (list_prod all_dist all_dist) = true.
+Proof. vm_compute. reflexivity. Qed.
+Lemma time_physical_table : forallb (phys_ok k_time si_time) (list_prod all_time all_time) = true.
+Proof. vm_compute. reflexivity. Qed.
+Lemma speed_physical_table : forallb (phys_ok k_speed si_speed) (list_prod all_speed all_speed) = true.
+Proof. vm_compute. reflexivity. Qed.
+Lemma grade_physical_table : forallb (phys_ok k_grade si_grade) (list_prod all_grade all_grade) = true.
+Proof. vm_compute. reflexivity. Qed.
+Lemma weight_physical_table : forallb (phys_ok k_weight si_weight) (list_prod all_weight all_weight) = true.
+Proof. vm_compute. reflexivity. Qed.
+
+(* the factors to and from the base units are strictly positive (so the sign tests of the constructors, made
+   AFTER conversion to base units, are tests on the raw inputs) *)
+Lemma distance_positive_table : forallb (pos_ok k_dist base_distance_unit) all_dist = true.
+Proof. vm_compute. reflexivity. Qed.
+Lemma time_positive_table : forallb (pos_ok k_time base_time_unit) all_time = true.
+Proof. vm_compute. reflexivity. Qed.
+Lemma speed_positive_table : forallb (pos_ok k_speed base_speed_unit) all_speed = true.
+Proof. vm_compute. reflexivity. Qed.
+
+(* constructors: the combined factor of every unit triple is within the accumulated tolerance of the same
+   combination of SI factors (60 + 60 triples, 25 rate/distance pairs) *)
+Lemma create_time_table : forallb time_ok time_triples = true.
+Proof. vm_compute. reflexivity. Qed.
+Lemma create_speed_table : forallb speed_ok speed_triples = true.
+Proof. vm_compute. reflexivity. Qed.
+Lemma create_energy_table : forallb energy_ok energy_pairs = true.
+Proof. vm_compute. reflexivity. Qed.
+
+(* the search tool of the run agrees: no failing entry *)
+Lemma no_table_failures : table_failures = [].
+Proof. vm_compute. reflexivity. Qed.
+
+(* ------------------------------------------------------------------ 4. the six families *)
+Lemma convert_distance_factor : forall u v (x : Q), convert_distance QN u v x == x * k_dist u v.
+Proof. exact (fam_factor dist_name distance_table). Qed.
+Lemma convert_time_factor : forall u v (x : Q), convert_time QN u v x == x * k_time u v.
+Proof. exact (fam_factor time_name time_table). Qed.
+Lemma convert_speed_factor : forall u v (x : Q), convert_speed QN u v x == x * k_speed u v.
+Proof. exact (fam_factor speed_name speed_table). Qed.
+Lemma convert_energy_factor : forall u v (x : Q), convert_energy QN u v x == x * k_energy u v.
+Proof. exact (fam_factor energy_name energy_table). Qed.
+Lemma convert_grade_factor : forall u v (x : Q), convert_grade QN u v x == x * k_grade u v.
+Proof. exact (fam_factor grade_name grade_table). Qed.
+Lemma convert_weight_factor : forall u v (x : Q), convert_weight QN u v x == x * k_weight u v.
+Proof. exact (fam_factor weight_name weight_table). Qed.
+
+(* linearity *)
+Lemma convert_distance_additive : forall u v (x y : Q),
+  convert_distance QN u v (x + y) == convert_distance QN u v x + convert_distance QN u v y.
+Proof. exact (fam_additive dist_name distance_table). Qed.
+Lemma convert_time_additive : forall u v (x y : Q),
+  convert_time QN u v (x + y) == convert_time QN u v x + convert_time QN u v y.
+Proof. exact (fam_additive time_name time_table). Qed.
+Lemma convert_speed_additive : forall u v (x y : Q),
+  convert_speed QN u v (x + y) == convert_speed QN u v x + convert_speed QN u v y.
+Proof. exact (fam_additive speed_name speed_table). Qed.
+Lemma convert_energy_additive : forall u v (x y : Q),
+  convert_energy QN u v (x + y) == convert_energy QN u v x + convert_energy QN u v y.
+Proof. exact (fam_additive energy_name energy_table). Qed.
+Lemma convert_grade_additive : forall u v (x y : Q),
+  convert_grade QN u v (x + y) == convert_grade QN u v x + convert_grade QN u v y.
+Proof. exact (fam_additive grade_name grade_table). Qed.
+Lemma convert_weight_additive : forall u v (x y : Q),
+  convert_weight QN u v (x + y) == convert_weight QN u v x + convert_weight QN u v y.
+Proof. exact (fam_additive weight_name weight_table). Qed.
+
+Lemma convert_distance_homogeneous : forall u v (a x : Q),
+  convert_distance QN u v (a * x) == a * convert_distance QN u v x.
+Proof. exact (fam_homogeneous dist_name distance_table). Qed.
+Lemma convert_time_homogeneous : forall u v (a x : Q),
+  convert_time QN u v (a * x) == a * convert_time QN u v x.
+Proof. exact (fam_homogeneous time_name time_table). Qed.
+Lemma convert_speed_homogeneous : forall u v (a x : Q),
+  convert_speed QN u v (a * x) == a * convert_speed QN u v x.
+Proof. exact (fam_homogeneous speed_name speed_table). Qed.
+Lemma convert_energy_homogeneous : forall u v (a x : Q),
+  convert_energy QN u v (a * x) == a * convert_energy QN u v x.
+Proof. exact (fam_homogeneous energy_name energy_table). Qed.
+Lemma convert_grade_homogeneous : forall u v (a x : Q),
+  convert_grade QN u v (a * x) == a * convert_grade QN u v x.
+Proof. exact (fam_homogeneous grade_name grade_table). Qed.
+Lemma convert_weight_homogeneous : forall u v (a x : Q),
+  convert_weight QN u v (a * x) == a * convert_weight QN u v x.
+Proof. exact (fam_homogeneous weight_name weight_table). Qed.
+
+(* identity *)
+Lemma convert_distance_id : forall u (x : Q), convert_distance QN u u x == x.
+Proof. exact (fam_identity dist_name distance_table all_dist all_dist_complete distance_identity_table). Qed.
+Lemma convert_time_id : forall u (x : Q), convert_time QN u u x == x.
+Proof. exact (fam_identity time_name time_table all_time all_time_complete time_identity_table). Qed.
+Lemma convert_speed_id : forall u (x : Q), convert_speed QN u u x == x.
+Proof. exact (fam_identity speed_name speed_table all_speed all_speed_complete speed_identity_table). Qed.
+Lemma convert_energy_id : forall u (x : Q), convert_energy QN u u x == x.
+Proof. exact (fam_identity energy_name energy_table all_energy all_energy_complete energy_identity_table). Qed.
+Lemma convert_grade_id : forall u (x : Q), convert_grade QN u u x == x.
+Proof. exact (fam_identity grade_name grade_table all_grade all_grade_complete grade_identity_table). Qed.
+Lemma convert_weight_id : forall u (x : Q), convert_weight QN u u x == x.
+Proof. exact (fam_identity weight_name weight_table all_weight all_weight_complete weight_identity_table). Qed.
+
+(* round trip within 0.1 %, every ordered pair, every magnitude and sign *)
+Lemma convert_distance_roundtrip : forall u v (x : Q),
+  Qabs (convert_distance QN v u (convert_distance QN u v x) - x) <= tol * Qabs x.
+Proof. exact (fam_roundtrip dist_name distance_table all_dist all_dist_complete distance_roundtrip_table). Qed.
+Lemma convert_time_roundtrip : forall u v (x : Q),
+  Qabs (convert_time QN v u (convert_time QN u v x) - x) <= tol * Qabs x.
+Proof. exact (fam_roundtrip time_name time_table all_time all_time_complete time_roundtrip_table). Qed.
+Lemma convert_speed_roundtrip : forall u v (x : Q),
+  Qabs (convert_speed QN v u (convert_speed QN u v x) - x) <= tol * Qabs x.
+Proof. exact (fam_roundtrip speed_name speed_table all_speed all_speed_complete speed_roundtrip_table). Qed.
+Lemma convert_energy_roundtrip : forall u v (x : Q),
+  Qabs (convert_energy QN v u (convert_energy QN u v x) - x) <= tol * Qabs x.
+Proof. exact (fam_roundtrip energy_name energy_table all_energy all_energy_complete energy_roundtrip_table). Qed.
+Lemma convert_grade_roundtrip : forall u v (x : Q),
+  Qabs (convert_grade QN v u (convert_grade QN u v x) - x) <= tol * Qabs x.
+Proof. exact (fam_roundtrip grade_name grade_table all_grade all_grade_complete grade_roundtrip_table). Qed.
+Lemma convert_weight_roundtrip : forall u v (x : Q),
+  Qabs (convert_weight QN v u (convert_weight QN u v x) - x) <= tol * Qabs x.
+Proof. exact (fam_roundtrip weight_name weight_table all_weight all_weight_complete weight_roundtrip_table). Qed.
+
+(* physical factor within 0.1 % *)
+Lemma convert_distance_physical : forall u v (x : Q),
+  Qabs (convert_distance QN u v x - x * (si_distance u / si_distance v)) <= tol * Qabs (x * (si_distance u / si_distance v)).
+Proof. exact (fam_physical dist_name distance_table all_dist all_dist_complete si_distance distance_physical_table). Qed.
+Lemma convert_time_physical : forall u v (x : Q),
+  Qabs (convert_time QN u v x - x * (si_time u / si_time v)) <= tol * Qabs (x * (si_time u / si_time v)).
+Proof. exact (fam_physical time_name time_table all_time all_time_complete si_time time_physical_table). Qed.
+Lemma convert_speed_physical : forall u v (x : Q),
+  Qabs (convert_speed QN u v x - x * (si_speed u / si_speed v)) <= tol * Qabs (x * (si_speed u / si_speed v)).
+Proof. exact (fam_physical speed_name speed_table all_speed all_speed_complete si_speed speed_physical_table). Qed.
+Lemma convert_grade_physical : forall u v (x : Q),
+  Qabs (convert_grade QN u v x - x * (si_grade u / si_grade v)) <= tol * Qabs (x * (si_grade u / si_grade v)).
+Proof. exact (fam_physical grade_name grade_table all_grade all_grade_complete si_grade grade_physical_table). Qed.
+Lemma convert_weight_physical : forall u v (x : Q),
+  Qabs (convert_weight QN u v x - x * (si_weight u / si_weight v)) <= tol * Qabs (x * (si_weight u / si_weight v)).
+Proof. exact (fam_physical weight_name weight_table all_weight all_weight_complete si_weight weight_physical_table). Qed.
+
+(* ------------------------------------------------------------------ 5. constructors *)
+Lemma dist_to_base_pos : forall u, 0 < k_dist u base_distance_unit.
+Proof. intros u. exact (proj1 (fam_positive dist_name distance_table all_dist all_dist_complete _ distance_positive_table u)). Qed.
+Lemma speed_to_base_pos : forall u, 0 < k_speed u base_speed_unit.
+Proof. intros u. exact (proj1 (fam_positive speed_name speed_table all_speed all_speed_complete _ speed_positive_table u)). Qed.
+Lemma time_to_base_pos : forall u, 0 < k_time u base_time_unit.
+Proof. intros u. exact (proj1 (fam_positive time_name time_table all_time all_time_complete _ time_positive_table u)). Qed.
+
+Lemma in_triples : forall {A B C} (la : list A) (lb : list B) (lc : list C) a b c,
+  In a la -> In b lb -> In c lc -> In (a, b, c) (list_prod (list_prod la lb) lc).
+Proof. intros A B C la lb lc a b c Ha Hb Hc. apply in_prod; [apply in_prod|]; assumption. Qed.
+
+(* create_time: rejection *)
+Lemma create_time_rejects : forall su du tu (s d : Q),
+  s <= 0 \/ d <= 0 -> create_time QN s su d du tu = Err err_time.
+Proof.
+  intros su du tu s d Hsd. unfold create_time. cbn [leb zero QN].
+  assert (Hor : Qle_bool (convert_speed QN su base_speed_unit s) 0 || Qle_bool (convert_distance QN du base_distance_unit d) 0 = true).
+  { apply orb_true_iff. destruct Hsd as [Hs | Hd]; [left | right]; apply Qle_bool_iff.
+    - rewrite convert_speed_factor. apply mul_nonpos; [exact Hs | apply speed_to_base_pos].
+    - rewrite convert_distance_factor. apply mul_nonpos; [exact Hd | apply dist_to_base_pos]. }
+  rewrite Hor. reflexivity.
+Qed.
+
+(* create_time: algebraic form and distance to the definition time = distance / speed *)
+Lemma create_time_spec : forall su du tu (s d : Q), 0 < s -> 0 < d ->
+  exists t : Q, create_time QN s su d du tu = Ok t
+    /\ t == d / s * time_factor su du tu
+    /\ Qabs (t - d / s * time_si su du tu) <= tol3 * Qabs (d / s * time_si su du tu).
+Proof.
+  intros su du tu s d Hs Hd. unfold create_time. cbn [leb zero div QN].
+  rewrite (Qle_bool_false (convert_speed QN su base_speed_unit s) 0).
+  2:{ rewrite convert_speed_factor. apply mul_pos; [exact Hs | apply speed_to_base_pos]. }
+  rewrite (Qle_bool_false (convert_distance QN du base_distance_unit d) 0).
+  2:{ rewrite convert_distance_factor. apply mul_pos; [exact Hd | apply dist_to_base_pos]. }
+  cbn [orb]. eexists. split; [reflexivity|].
+  assert (E : convert_time QN base_time_unit tu
+                (convert_distance QN du base_distance_unit d / convert_speed QN su base_speed_unit s)
+              == d / s * time_factor su du tu).
+  { rewrite convert_time_factor, convert_distance_factor, convert_speed_factor.
+    rewrite div_mul_div. unfold time_factor. ring. }
+  split; [exact E|].
+  rewrite E. apply scale_within. apply within_spec.
+  pose proof create_time_table as Htab. rewrite forallb_forall in Htab.
+  exact (Htab (su, du, tu) (in_triples _ _ _ _ _ _ (all_speed_complete su) (all_dist_complete du) (all_time_complete tu))).
+Qed.
+
+(* the SI form of the definition: (d * si du) / (s * si su) / si tu, i.e. metres over metres-per-second, in tu *)
+Lemma time_si_form : forall su du tu (s d : Q),
+  (d * si_distance du) / (s * si_speed su) / si_time tu == d / s * time_si su du tu.
+Proof. intros su du tu s d. rewrite div_mul_div. unfold time_si, Qdiv. ring. Qed.
+
+(* create_speed *)
+Lemma create_speed_rejects : forall tu du su (t d : Q),
+  t <= 0 -> create_speed QN t tu d du su = Err err_speed.
+Proof.
+  intros tu du su t d Ht. unfold create_speed. cbn [leb zero QN].
+  assert (H : Qle_bool (convert_time QN tu base_time_unit t) 0 = true).
+  { apply Qle_bool_iff. rewrite convert_time_factor. apply mul_nonpos; [exact Ht | apply time_to_base_pos]. }
+  rewrite H. reflexivity.
+Qed.
+
+Lemma create_speed_spec : forall tu du su (t d : Q), 0 < t ->
+  exists v : Q, create_speed QN t tu d du su = Ok v
+    /\ v == d / t * speed_factor tu du su
+    /\ Qabs (v - d / t * speed_si tu du su) <= tol3 * Qabs (d / t * speed_si tu du su).
+Proof.
+  intros tu du su t d Ht. unfold create_speed. cbn [leb zero div QN].
+  rewrite (Qle_bool_false (convert_time QN tu base_time_unit t) 0).
+  2:{ rewrite convert_time_factor. apply mul_pos; [exact Ht | apply time_to_base_pos]. }
+  eexists. split; [reflexivity|].
+  assert (E : convert_speed QN base_speed_unit su
+                (convert_distance QN du base_distance_unit d / convert_time QN tu base_time_unit t)
+              == d / t * speed_factor tu du su).
+  { rewrite convert_speed_factor, convert_distance_factor, convert_time_factor.
+    rewrite div_mul_div. unfold speed_factor. ring. }
+  split; [exact E|].
+  rewrite E. apply scale_within. apply within_spec.
+  pose proof create_speed_table as Htab. rewrite forallb_forall in Htab.
+  exact (Htab (tu, du, su) (in_triples _ _ _ _ _ _ (all_time_complete tu) (all_dist_complete du) (all_speed_complete su))).
+Qed.
+
+Lemma speed_si_form : forall tu du su (t d : Q),
+  (d * si_distance du) / (t * si_time tu) / si_speed su == d / t * speed_si tu du su.
+Proof. intros tu du su t d. rewrite div_mul_div. unfold speed_si, Qdiv. ring. Qed.
+
+(* create_energy: never rejects; energy = rate * distance in the distance unit of the rate, reported in the
+   energy unit of the rate *)
+Lemma create_energy_spec : forall eru du (r d : Q),
+  exists e : Q, create_energy QN r eru d du = Ok (e, rate_energy eru)
+    /\ e == r * d * energy_factor eru du
+    /\ Qabs (e - r * d * energy_si eru du) <= tol * Qabs (r * d * energy_si eru du).
+Proof.
+  intros eru du r d.
+  pose proof create_energy_table as Htab. rewrite forallb_forall in Htab.
+  specialize (Htab (eru, du) (proj2 (in_prod_iff _ _ eru du) (conj (all_energy_rate_complete eru) (all_dist_complete du)))).
+  unfold energy_ok in Htab. apply andb_true_iff in Htab. destruct Htab as [Htab Hd].
+  apply andb_true_iff in Htab. destruct Htab as [Hw He].
+  assert (Heu : energy_rate_energy_unit eru = rate_energy eru).
+  { destruct (energy_rate_energy_unit eru), (rate_energy eru); solve [reflexivity | discriminate He]. }
+  unfold create_energy. cbn [mul QN]. rewrite Heu. eexists. split; [reflexivity|].
+  assert (E : r * convert_distance QN du (energy_rate_distance_unit eru) d == r * d * energy_factor eru du).
+  { rewrite convert_distance_factor. unfold energy_factor. ring. }
+  split; [exact E|].
+  rewrite E. apply scale_within. apply within_spec. exact Hw.
+Qed.
+
+(* the same two statements with the definition spelled out in SI form: metres / (metres per second), in tu *)
+Lemma create_time_spec_si : forall su du tu (s d : Q), 0 < s -> 0 < d ->
+  exists t : Q, create_time QN s su d du tu = Ok t
+    /\ t == d / s * (k_dist du base_distance_unit / k_speed su base_speed_unit * k_time base_time_unit tu)
+    /\ Qabs (t - (d * si_distance du) / (s * si_speed su) / si_time tu)
+       <= tol3 * Qabs ((d * si_distance du) / (s * si_speed su) / si_time tu).
+Proof.
+  intros su du tu s d Hs Hd. destruct (create_time_spec su du tu s d Hs Hd) as [t [H1 [H2 H3]]].
+  exists t. split; [exact H1|]. split; [exact H2|]. rewrite time_si_form. exact H3.
+Qed.
+
+Lemma create_speed_spec_si : forall tu du su (t d : Q), 0 < t ->
+  exists v : Q, create_speed QN t tu d du su = Ok v
+    /\ v == d / t * (k_dist du base_distance_unit / k_time tu base_time_unit * k_speed base_speed_unit su)
+    /\ Qabs (v - (d * si_distance du) / (t * si_time tu) / si_speed su)
+       <= tol3 * Qabs ((d * si_distance du) / (t * si_time tu) / si_speed su).
+Proof.
+  intros tu du su t d Ht. destruct (create_speed_spec tu du su t d Ht) as [v [H1 [H2 H3]]].
+  exists v. split; [exact H1|]. split; [exact H2|]. rewrite speed_si_form. exact H3.
+Qed.
+
+Lemma create_energy_spec_si : forall eru du (r d : Q),
+  exists e : Q, create_energy QN r eru d du = Ok (e, rate_energy eru)
+    /\ e == r * d * k_dist du (rate_distance eru)
+    /\ Qabs (e - r * (d * (si_distance du / si_distance (rate_distance eru))))
+       <= tol * Qabs (r * (d * (si_distance du / si_distance (rate_distance eru)))).
+Proof.
+  intros eru du r d. destruct (create_energy_spec eru du r d) as [e [H1 [H2 H3]]].
+  exists e. split; [exact H1|].
+  pose proof create_energy_table as Htab. rewrite forallb_forall in Htab.
+  specialize (Htab (eru, du) (proj2 (in_prod_iff _ _ eru du) (conj (all_energy_rate_complete eru) (all_dist_complete du)))).
+  unfold energy_ok in Htab. apply andb_true_iff in Htab. destruct Htab as [_ Hd].
+  assert (Hdu : energy_rate_distance_unit eru = rate_distance eru).
+  { destruct (energy_rate_distance_unit eru), (rate_distance eru); solve [reflexivity | discriminate Hd]. }
+  split.
+  - rewrite H2. unfold energy_factor. rewrite Hdu. reflexivity.
+  - assert (E : r * (d * (si_distance du / si_distance (rate_distance eru))) == r * d * energy_si eru du).
+    { unfold energy_si. ring. }
+    rewrite E. exact H3.
+Qed.
+
+(* the combined factors themselves are within the accumulated tolerance of the SI combination *)
+Lemma time_factor_within : forall su du tu,
+  Qabs (time_factor su du tu - time_si su du tu) <= tol3 * Qabs (time_si su du tu).
+Proof.
+  intros su du tu. apply within_spec. pose proof create_time_table as Htab. rewrite forallb_forall in Htab.
+  exact (Htab (su, du, tu) (in_triples _ _ _ _ _ _ (all_speed_complete su) (all_dist_complete du) (all_time_complete tu))).
+Qed.
+Lemma speed_factor_within : forall tu du su,
+  Qabs (speed_factor tu du su - speed_si tu du su) <= tol3 * Qabs (speed_si tu du su).
+Proof.
+  intros tu du su. apply within_spec. pose proof create_speed_table as Htab. rewrite forallb_forall in Htab.
+  exact (Htab (tu, du, su) (in_triples _ _ _ _ _ _ (all_time_complete tu) (all_dist_complete du) (all_speed_complete su))).
+Qed.
+
+(* examples used for non-vacuity in Props/C09.v (inequalities only: a corrected literal must not break them) *)
+Lemma ex_miles_km : Qabs (convert_distance QN Miles Kilometers 10 - (1609344 # 100000)) <= (1 # 1000) * (1609344 # 100000)
+                    /\ ~ convert_distance QN Miles Kilometers 10 == 10.
+Proof.
+  split.
+  - apply Qle_bool_iff. vm_compute. reflexivity.
+  - intro H. vm_compute in H. discriminate H.
+Qed.
+Lemma ex_create_time :
+  match create_time QN 60 KilometersPerHour 30 Kilometers Minutes with
+  | Ok t => Qle_bool (Qabs (t - 30)) (1 # 100)
+  | _ => false
+  end = true
+  /\ create_time QN 0 KilometersPerHour 30 Kilometers Minutes = Err err_time
+  /\ create_time QN 60 KilometersPerHour (-30) Kilometers Minutes = Err err_time.
+Proof. repeat split; vm_compute; reflexivity. Qed.
+Lemma ex_create_energy :
+  match create_energy QN (2 # 10) KilowattHoursPerKilometer 1000 Meters with
+  | Ok (e, KilowattHours) => Qle_bool (Qabs (e - (2 # 10))) (1 # 1000)
+  | _ => false
+  end = true.
+Proof. vm_compute. reflexivity. Qed.
